@@ -351,6 +351,11 @@ func (x *Exec) runFunc(fn *ssa.Function, args []Value, bind []Value, st State, t
 	}
 	fr := &frame{fn: fn, top: top, name: shortFuncName(fn), preLoop: map[*loopInfo]*State{}}
 	fr.fc = x.prog.contracts.Funcs[shortFuncName(fn)]
+	if top && x.fc != nil && x.fc.View != "" {
+		// a view verified against the body: its own loop contracts, lemma uses and obligation names
+		fr.fc = x.fc
+		fr.name = x.fc.Key
+	}
 	fr.loops, fr.rpo = analyzeLoops(fn)
 	fr.rpoIdx = map[*ssa.BasicBlock]int{}
 	for i, b := range fr.rpo {
@@ -517,6 +522,14 @@ func (x *Exec) runLoop(fr *frame, li *loopInfo, inc []edge) []edge {
 	sin := x.enterBlock(fr, h, inc)
 	pre := sin.clone()
 	fr.preLoop[li] = &pre
+	if fr.fc != nil {
+		// lemma instances requested `at loopN` are also available when the invariant is established
+		for _, ul := range fr.fc.Uses {
+			if ul.At == fmt.Sprintf("loop%d", li.ordinal) {
+				x.useLemma(fr, &sin, ul, x.loopOpts(fr, &pre))
+			}
+		}
+	}
 	for i, inv := range lc.Invariants {
 		g := x.evalGoalClause(fr, &sin, inv, x.loopOpts(fr, &pre))
 		x.vc.oblige(&Obligation{Name: fmt.Sprintf("%s.inv%d.entry", loopName, i+1), Kind: "inv-entry", Func: fr.name,
